@@ -315,6 +315,8 @@ impl ToLinker {
             if size != self.read {
                 return Err(Error::SizeMismatch(size, self.read));
             }
+        } else {
+            self.opts.size = Some(self.read);
         }
         if let Some(key) = self.key {
             index::insert(&self.cache, &key, self.opts)
@@ -456,6 +458,8 @@ impl SyncToLinker {
             if size != self.read {
                 return Err(Error::SizeMismatch(size, self.read));
             }
+        } else {
+            self.opts.size = Some(self.read);
         }
         if let Some(key) = self.key {
             index::insert(&cache, &key, self.opts)
